@@ -20,7 +20,7 @@
    operands of `or`, a negated test with swapped branches. *)
 From Coq Require Import List NArith ZArith Bool.
 From Baize Require Import Lib.Order Lib.PyStr Lib.PyStrFacts.
-From Baize Require Lib.Path Lib.PathFacts C07.Model C07.PyLib.
+From Baize Require Lib.Path Lib.PathFacts C07.Model C07.Properties C07.PyLib.
 (* GENERATED-BEGIN *)
 From Baize Require C07.Generated_ref.
 Module G := Baize.C07.Generated_ref.
@@ -211,8 +211,20 @@ Proof.
     try discriminate H; injection H as H; subst; reflexivity.
 Qed.
 
+(* with the theorem of C07/Properties.v about the model (ensure_is_lexical), under its premise — the directory is absolute,
+   normalised and not the root, which is what normalize_dir_path returns: the method read from the source raises nothing
+   and returns the request path resolved segment by segment below the directory, None when that is outside *)
+Theorem ensure_absolute_path_lexical : forall cwd dir path, M.wf_dir dir = true ->
+  G.ensure_absolute_path cwd dir path = Ret (M.lexical_target dir path).
+Proof.
+  intros cwd dir path Hwf. rewrite ensure_absolute_path_translated.
+  rewrite (Baize.C07.Properties.ensure_is_lexical cwd dir path Hwf).
+  destruct (M.lexical_target dir path); reflexivity.
+Qed.
+
 Print Assumptions ensure_absolute_path_translated.
 Print Assumptions ensure_absolute_path_returns.
+Print Assumptions ensure_absolute_path_lexical.
 (* METHOD-END ensure_absolute_path *)
 
 (* METHOD-BEGIN check_path_is_file *)
